@@ -178,7 +178,7 @@ class LinearOperator(Operator[torch.Tensor, tuple[torch.Tensor]]):
 
             # check if stopping criterion is fulfillfed; if not continue the iteration
             if (absolute_tolerance > 0 or relative_tolerance > 0) and torch.isclose(
-                op_norm, op_norm_old, atol=absolute_tolerance, rtol=relative_tolerance
+                op_norm, op_norm_old.to(op_norm.dtype), atol=absolute_tolerance, rtol=relative_tolerance
             ).all():
                 break
 
